@@ -42,6 +42,7 @@ func c01(c *core.Check) {
 	c01NilResults(c)
 	c01ErrorNotPanic(c)
 	c01RangeIndexSlices(c)
+	c01FloatLoops(c)
 	c01OrderedSlices(c)
 
 	p := c.Prog
